@@ -729,7 +729,9 @@ func (l *lexer) parsePostfix(e *CExpr) *CExpr {
 				call.Name = "." + e.Name
 				call.Args = append(call.Args, e.Args[0])
 			} else {
-				panic(parseError("call of non-identifier"))
+				// application of a function-valued expression: f(x)(y)
+				call.Kind = "apply"
+				call.Args = append(call.Args, e)
 			}
 			for !l.isOp(")") {
 				call.Args = append(call.Args, l.parseExpr(0))
